@@ -1,6 +1,99 @@
 import TabulaModel.Util
-namespace Tabula.C18H
+import TabulaModel.Model.Package
+/-!
+Line protocol of C18.
 
-def handle (_op : String) (_args : List String) : String := "bad-op"
+`c18.pkg <fmt> a=<hexname>:<cid>,… x=<cid>=<spec>;…`
+  fmt ∈ xlsx | pptx | epub; `a=` is the archive in ZIP order; `x=` the parse table
+  (content ids not listed are opaque). spec:
+    `S` worksheet   `L` slide   `B` not well-formed
+    `W,<name>.<rid>,…`      workbook sheet list
+    `R,<Id>.<Target>,…`     relationships
+    `P`                     presentation without sldIdLst
+    `Q,<rid>,…`             presentation with sldIdLst
+    `C,<fullpath>.<mediatype>,…`   container rootfiles
+    `F,<id>.<href>,…/I,<idref>,…`  package document: manifest / spine
+  (all strings hex, `-` = empty)
+  reply: `err` or `ok` followed by one field per presented part:
+    xlsx `<Sheet.Index>:<cid>:<hexname>`  pptx `<Slide.Index>:<cid>`
+    epub `<Chapter.Index>:<cid>:<hex Href>:<hex ID>`
+`c18.href <hexbase> <hexhref>` → hex of `resolveHref`.
+-/
+namespace Tabula.C18H
+open Tabula Tabula.Package
+
+def toStr (b : Bytes) : Str := b.map (·.toNat)
+def ofStr (s : Str) : Bytes := s.map UInt8.ofNat
+def hexS (s : Str) : String := hex (ofStr s)
+def unhexS (s : String) : Option Str := (unhex s).map toStr
+
+def parsePair (s : String) : Option (Str × Str) :=
+  match s.splitOn "." with
+  | [a, b] => do pure (← unhexS a, ← unhexS b)
+  | _ => none
+
+def parseSpec (s : String) : Option Doc :=
+  match s.splitOn "/" with
+  | [one] =>
+    match one.splitOn "," with
+    | ["S"] => some .sheet
+    | ["L"] => some .slide
+    | ["B"] => some .bad
+    | ["P"] => some (.presentation none)
+    | "W" :: ps => (ps.mapM parsePair).map .workbook
+    | "R" :: ps => (ps.mapM parsePair).map .rels
+    | "Q" :: ids => (ids.mapM unhexS).map fun l => .presentation (some l)
+    | "C" :: ps => (ps.mapM parsePair).map .container
+    | _ => none
+  | [f, i] =>
+    match f.splitOn ",", i.splitOn "," with
+    | "F" :: ps, "I" :: ids => do pure (.opf (← ps.mapM parsePair) (← ids.mapM unhexS))
+    | _, _ => none
+  | _ => none
+
+def parseMember (s : String) : Option (Str × Nat) :=
+  match s.splitOn ":" with
+  | [n, c] => do pure (← unhexS n, ← c.toNat?)
+  | _ => none
+
+def parseDocEntry (s : String) : Option (Nat × Doc) :=
+  match s.splitOn "=" with
+  | [c, spec] => do pure (← c.toNat?, ← parseSpec spec)
+  | _ => none
+
+def docsOf (tbl : List (Nat × Doc)) : Docs := fun c =>
+  match tbl.find? (·.1 = c) with
+  | some e => e.2
+  | none => .opaque
+
+def parseArchive (s : String) : Option Archive :=
+  if s == "" then some [] else (s.splitOn ",").mapM parseMember
+
+def parseDocs (s : String) : Option Docs :=
+  if s == "" then some (docsOf []) else ((s.splitOn ";").mapM parseDocEntry).map docsOf
+
+def handle (op : String) (args : List String) : String :=
+  match op, args with
+  | "c18.href", [b, h] =>
+    match unhexS b, unhexS h with
+    | some b, some h => hexS (resolveHref b h)
+    | _, _ => "bad-op"
+  | "c18.pkg", [fmt, a, x] =>
+    if !(a.startsWith "a=" && x.startsWith "x=") then "bad-op" else
+    match parseArchive (a.drop 2).toString, parseDocs (x.drop 2).toString with
+    | some arch, some docs =>
+      match fmt with
+      | "xlsx" => match xlsxOpen arch docs with
+        | none => "err"
+        | some ps => " ".intercalate ("ok" :: ps.map fun (i, c, n) => s!"{i}:{c}:{hexS n}")
+      | "pptx" => match pptxOpen arch docs with
+        | none => "err"
+        | some ps => " ".intercalate ("ok" :: ps.map fun (i, c) => s!"{i}:{c}")
+      | "epub" => match epubOpen arch docs with
+        | none => "err"
+        | some ps => " ".intercalate ("ok" :: ps.map fun (i, c, p, id) => s!"{i}:{c}:{hexS p}:{hexS id}")
+      | _ => "bad-op"
+    | _, _ => "bad-op"
+  | _, _ => "bad-op"
 
 end Tabula.C18H
